@@ -154,4 +154,24 @@ PROPS["C20"] = dict(
                  "after the kQuai reset fork block difficulty exceeds KQuaiDifficultyDivisor (else CalculateQuaiReward is negative)"],
 )
 
+def lockup_preamble(facts, impl):
+    return "cfg undoUsesOldDelegate %d\ncfg revertRestoresBatch %d\n" % (1 if facts.get("lockup_undo_uses_old_delegate") else 0, 1 if facts.get("revert_restores_lockup_batch") else 0)
+
+PROPS["C13"] = dict(
+    lean_modules=["QuaiVerif.Props.C13"],
+    areas=[dict(name="lockup", n_quick=600, n_thorough=12000, seeds_thorough=3, n_search=2500, preamble=lockup_preamble)],
+    facts=["lockup_undo_uses_old_delegate", "revert_restores_lockup_batch"],
+    rule="a case is one multi-block history on a real block batch (pending mode, committed at block boundaries) of 6-30 operations over 2 owner contracts x 2 miners "
+         "x 3 lockup bytes x 3 epochs: AddNewLock (delegate changes, unlock heights incl. epoch-aligned 0), claims through EVM.Call into the lockup precompile by "
+         "owner and non-owner, before/at/after the tranche unlock height, with too little gas, to the other ledger, repeated in the same and in later blocks, and "
+         "claims inside a frame that REVERTs; all non-trivial; distinct by sub-seed",
+    level_text="Claim conditions and amount, claim-once, owner-only, per-tranche accumulation (balance = sum of values over any run of additions) and the undo "
+               "record being the old record are Lean theorems over the lockup-ledger model; the two source facts the fixed variant depends on are regenerated; "
+               "the model is run against the real AddNewLock / lockup precompile / ReadCoinbaseLockup on a real batch across block boundaries.",
+    level_note="PARTIAL: block-reward formula and coinbase ETX construction, workshare uniqueness (VerifyUncles), and plain locked rewards / Qi->Quai conversions "
+               "credited at the unlock height (RedeemLockedQuai, CalculateCoinbaseValueWithLockup) need the zone chain harness and are not covered yet. Trusted: Lean "
+               "kernel, extractor facts, harness.",
+    assumptions=["AddNewLock callers pass sender = OneInternal(location) and checked addresses (state processor / worker)"],
+)
+
 NOT_APPLICABLE = {}
